@@ -104,7 +104,7 @@ class G:
     def __init__(self, rng, W):
         self.r = rng
         self.W = W
-        self.p_empty_id = 0.04
+        self.p_empty_id = 0.1
         self.boundary = False
 
     def width(self, lo=0):
@@ -391,7 +391,7 @@ def generate(tier, seed):
         for n in (1, 2, 3):
             for crlf in (False, True):
                 for k in range(2 * reps):
-                    if crlf and fmt in ('sam', 'gff', 'wig') and (k or n > 1):
+                    if crlf and fmt in ('gff', 'wig') and (k or n > 1):
                         continue        # these readers do not handle CRLF at all (recorded findings): one case each
                     cases.append(_mk(rng, fmt, n, 3, crlf=crlf))
     # larger / very unequal widths; signs; placeholders; tags; no final newline
@@ -399,7 +399,7 @@ def generate(tier, seed):
         for fmt in delimited:
             n = rng.randint(2, 7)
             W = rng.choice([1, 4, 9, 14])
-            cases.append(_mk(rng, fmt, n, W, crlf=(rep % 4 == 3 and (fmt not in ('sam', 'gff', 'wig') or rep == 3)), final_newline=(rep % 5 != 2),
+            cases.append(_mk(rng, fmt, n, W, crlf=(rep % 4 == 3 and (fmt not in ('gff', 'wig') or rep == 3)), final_newline=(rep % 5 != 2),
                              p_neg=rng.choice([0, 0, 0.3]), p_plus=rng.choice([0, 0, 0.2]),
                              p_dot=rng.choice([0, 0, 1.0]), p_tags=rng.choice([0, 0.5, 1])))
         for fmt in ('vcf', 'vcf', 'vcfgt', 'vcfph', 'vcfhap', 'vcf2', 'vcf2'):
@@ -412,6 +412,11 @@ def generate(tier, seed):
         for fmt in ('bed3', 'sizes', 'bed6', 'bed12', 'bdg', 'npk', 'gtf', 'pairs', 'sam', 'vcf'):
             for W in (10, 15):
                 cases.append(_mk(rng, fmt, rng.randint(2, 5), W, crlf=(rep % 2 == 1), boundary=True))
+    # SAM with CRLF line ends (repaired in /repo 6bbd290): with and without tags, last record with / without final line break
+    for rep in range(4 * reps):
+        for p_tags in (0, 0.5, 1):
+            cases.append(_mk(rng, 'sam', rng.randint(1, 5), rng.choice([2, 4, 9]), crlf=True, final_newline=(rep % 2 == 0),
+                             p_tags=p_tags, p_neg=0.3))
     # INFO key families: declared keys that are prefixes / suffixes / infixes of each other, records carrying only the
     # longer or only the shorter one, plus undeclared neighbour keys
     for rep in range(6 * reps):
@@ -712,12 +717,8 @@ def _col_equal(expected, observed, cr_suffix=False, last_plain=False):
 
 def _expected_failures(case):
     """columns that the recorded findings say fail for this input: {column name: finding id}"""
-    fmt, recs = case['fmt'], case['recs']
     out = {}
-    for j, name in SID_COLS.get(fmt, {}).items():
-        if all(r[j] == '' for r in recs):
-            out[name] = 'C02-sid-all-empty'
-    if case['crlf'] and fmt == 'wig':
+    if case['crlf'] and case['fmt'] == 'wig':
         out['value'] = 'C02-crlf-interior-comment-formats'
     return out
 
@@ -732,12 +733,8 @@ def finding(case, o):
     tab_comment = fmt in INTERIOR and any('\t' in c for cs in case['comments'].values() for c in cs)
     if 'error' in o:
         # whole-read failures: exactly the recorded exception class
-        if case['crlf'] and fmt == 'sam' and o['error'] == 'AttributeError':
-            return 'C02-crlf-sam'
         if tab_comment and o['error'] == 'ValueError':
             return 'C02-interior-comment-with-tab'
-        if fmt in ('gtf', 'gff') and exp and set(exp.values()) == {'C02-sid-all-empty'} and o['error'] == 'ValueError':
-            return 'C02-sid-all-empty'
         return None
     if tab_comment:
         return None                          # only the recorded ValueError is this finding's mode
@@ -745,10 +742,6 @@ def finding(case, o):
     if o.get('n') != len(recs):
         return None
     if fmt.startswith('vcf'):
-        # the mirror does not cover INFO / genotype columns: only the pure identifier failure is matched
-        if bad and bad == set(exp) and set(exp.values()) == {'C02-sid-all-empty'} and \
-                all(c[1] != 'err' or c[0] == 'chromosome' for c in o['cols']):
-            return 'C02-sid-all-empty'
         return None
     want = _expected_columns(case)
     if want is None or len(want) != len(o['cols']):
